@@ -5,6 +5,9 @@ TECH = "repository-specific static analysis"
 BASE_ASSUME = [
     "ordinary Python semantics of try/except/finally, with, threading.local, dict and deque operations",
     "the analysed tree is what gets imported (no monkey-patching of stackscope at run time)",
+    "before the rules look, the tree is normalised against the pinned reference (svx/data/inventory.json, locals.json): helpers and locals the reference does not have are inlined / replaced "
+    "by their value under side conditions that make the rewrite semantics-preserving, and a new keyword-only parameter with a constant default that nothing in its module passes is read "
+    "at that default (the properties are about the documented interface); every rewrite is listed in the evidence notes",
 ]
 FACT_ASSUME = [
     "CPython 3.9.18 / 3.10.13 / 3.11.7 / 3.12.1 under /root/.pyenv/versions stand for the supported minor versions (their headers, opcode tables, compiler and contextlib.py are the fact sources)",
